@@ -474,6 +474,16 @@ class CompositeFrontend(ConstrainedFrontend):
             return self._merge_with_ancestor(common_ancestor, merge_conditions)
 
         log.debug("Merging %s with %d other solvers.", self, len(others))
+        participants = list(zip([self, *others], merge_conditions, strict=False))
+        if any(s._unsat for s, _ in participants):
+            # a participant that is already known to be unsatisfiable contributes no models
+            participants = [(s, c) for s, c in participants if not s._unsat]
+            if not participants:
+                merged = self.blank_copy()
+                merged._unsat = True
+                return True, merged
+            return participants[0][0].merge([s for s, _ in participants[1:]], [c for _, c in participants])
+
         merged = self.blank_copy()
         common_solvers = self._shared_solvers(others)
         common_ids = {id(s) for s in common_solvers}
@@ -504,9 +514,10 @@ class CompositeFrontend(ConstrainedFrontend):
         if len(combined_noncommons):
             _, merged_noncommon = combined_noncommons[0].merge(combined_noncommons[1:], merge_conditions)
 
-            if merged_noncommon.variables & merged.variables:
-                # the merge conditions mention variables of the shared children: the merged constraints are not
-                # independent of them and have to join the children they depend on
+            if merged_noncommon.variables & merged.variables or not merged_noncommon.variables:
+                # the merge conditions mention variables of the shared children (the merged constraints are not
+                # independent of them and have to join the children they depend on), or the merged constraints are
+                # concrete (a child without variables cannot be stored)
                 merged.add(merged_noncommon.constraints)
             else:
                 merged._owned_solvers.add(merged_noncommon)
